@@ -811,6 +811,32 @@ impl Command for HfailCmd {
     }
 }
 
+/// `subrun <n>`: a nested run of an n-line script on a context of its own that shares the embedder's halt flag (what a
+/// command that evaluates a script of its own does). No emit, no effect on the caller's variables: invisible to the
+/// models. Once the flag is up the nested run stops, and so must the run it was called from.
+#[derive(Clone)]
+struct SubrunCmd;
+
+impl Command for SubrunCmd {
+    fn name(&self) -> String {
+        "subrun".to_string()
+    }
+    fn clone_and_box(&self) -> Box<dyn Command> {
+        Box::new(self.clone())
+    }
+    fn run(&self, ctx: CommandInvocationContext) -> CommandResult {
+        let n = ctx.arguments.first().and_then(|a| a.parse::<usize>().ok()).unwrap_or(3);
+        let text = (0..n).map(|i| format!("n{} = set {}", i, i)).collect::<Vec<_>>().join("\n");
+        let mut context = Context::new();
+        context.commands = ctx.commands.clone();
+        let env = Env::new(None, None, Some(ctx.env.halt.clone()));
+        match runner::run_script(&text, context, Some(env)) {
+            Ok(_) => CommandResult::Continue(None),
+            Err(e) => CommandResult::Error(e.to_string()),
+        }
+    }
+}
+
 /// commands that block, leave the process or change process-global state (S8): removed from every world
 pub const REMOVED: [&str; 30] = [
     "read", "sleep", "exec", "spawn", "exit", "watchdog", "http_client", "wget", "ftp_get", "ftp_get_in_memory", "ftp_list", "ftp_nlst", "ftp_put",
@@ -866,6 +892,7 @@ pub fn add_harness(commands: &mut Commands) {
     commands.set(Box::new(EmitCmd)).unwrap();
     commands.set(Box::new(CndCmd)).unwrap();
     commands.set(Box::new(HfailCmd)).unwrap();
+    commands.set(Box::new(SubrunCmd)).unwrap();
 }
 
 pub const LEAVES: [&str; 3] = ["emit", "std::var::Set", "hfail"];
@@ -1174,7 +1201,8 @@ impl<'r> G<'r> {
 /// exercise the block bookkeeping (per-line tables, call stacks, line context) from inside open blocks.
 fn lib_call(rng: &mut Rng, n_arrays: usize, scoped: bool) -> String {
     let arr = if n_arrays > 0 && !scoped { format!("${{a{}}}", rng.usize(n_arrays)) } else { "nohandle".to_string() };
-    match rng.below(10) {
+    match rng.below(11) {
+        10 => format!("subrun {}", 1 + rng.usize(4)),
         0 => format!("array_contains {} b", arr),
         1 => format!("array_contains {} zz", arr),
         2 => format!("array_join {} ,", arr),
